@@ -120,6 +120,8 @@ type c10lpCase struct {
 
 func TestVerifC10Locate(t *testing.T) {
 	log.SetOutput(io.Discard)
+	// a logrus Fatal inside LocatePattern unwinds like a panic (judged below) instead of ending the process
+	log.StandardLogger().ExitFunc = func(code int) { panic(fmt.Sprintf("log.Fatal (exit status %d)", code)) }
 	r := verifkit.New("C10")
 	defer r.Write()
 
@@ -142,6 +144,14 @@ func TestVerifC10Locate(t *testing.T) {
 		sfx := ""
 		if len(pat) == 1 {
 			sfx = ":patlen=1"
+		}
+		// what is submitted, classified by the reference (vacuity guards: counted whatever the implementation answers)
+		mn := c10lpMin(masks, seq, col)
+		if mn > 0 {
+			r.Count("cases_whose_best_site_has_errors", 1)
+		}
+		if len(seq) <= len(pat) {
+			r.Count("cases_with_fragment_not_longer_than_pattern", 1)
 		}
 		var from, to, score int
 		var pmsg string
@@ -169,7 +179,6 @@ func TestVerifC10Locate(t *testing.T) {
 			violate("LocatePattern/score-not-editdistance", c, "returned [%d,%d)=%q score=%d but the edit distance between pattern and span is %d", from, to, string(seq[from:to]), score, d)
 			return
 		}
-		mn := c10lpMin(masks, seq, col)
 		if score != mn {
 			violate("LocatePattern/score-not-minimal", c, "returned [%d,%d) score=%d but a substring at edit distance %d exists", from, to, score, mn)
 			return
@@ -216,8 +225,9 @@ func TestVerifC10Locate(t *testing.T) {
 			return
 		}
 	}
-	r.RequireNonVacuous("located_with_errors")
-	r.RequireNonVacuous("located_touching_an_end")
-	r.RequireNonVacuous("located_in_fragment_not_longer_than_pattern")
+	// guards on what the harness submitted (the located_* counters need right answers of the implementation, and which
+	// of several optimal sites it returns is its choice: they are reported, not required)
+	r.RequireNonVacuous("cases_whose_best_site_has_errors")
+	r.RequireNonVacuous("cases_with_fragment_not_longer_than_pattern")
 	r.Sample(c10lpCase{Part: "locate", Pat: "ACV", Seq: "ttagcg"})
 }
